@@ -175,6 +175,55 @@ pub fn generate(family: &str, seed: u64, tier: &str) -> Vec<String> {
                 }
             }
         }
+        // C19: a length- or close-delimited body goes on after a timed-out read (every octet that arrives later can
+        // still be read): the transient-error scenarios of x_fault for those framings, read call by read call
+        "x_resume" => {
+            for l in generate("x_fault", seed, tier) {
+                let sc: Value = serde_json::from_str(&l).unwrap();
+                if gs(&sc["fault"], "kind") == "errt" && matches!(gs(&sc["body"], "kind"), "length" | "close") && sc["steps"][1][0] == "reads" {
+                    out.push(sc);
+                }
+            }
+        }
+        // C02 / C01: the JSON helpers read the body to its end - a document followed by a cut frame is an error
+        "x_json" => {
+            let docs = ["{\"a\":1,\"b\":[true,null,\"x\"]}", "[1,2,3]", "\"str\"", "{\"k\":\"caf\u{e9} \u{2713}\"}", "123", "{}"];
+            let tails = ["", " ", "\n\n  ", "\r\n"];
+            let mut i = 0;
+            for doc in docs {
+                for tail in tails {
+                    let payload = format!("{}{}", doc, tail).into_bytes();
+                    let want = serde_json::to_vec(&serde_json::from_str::<Value>(doc).unwrap()).unwrap();
+                    for framing in ["length", "chunked", "close"] {
+                        for op in ["json", "json_utf8"] {
+                            let base = json!({"payload_hex":hex(&payload),"plen":payload.len(),"body":{"kind":framing,"chunks":[doc.len(), tail.len().max(1)]},
+                                "steps":[["send"],[op]],"text_ref":String::from_utf8(want.clone()).unwrap(),
+                                // (json() decodes like text(): without a charset parameter that would be ISO-8859-1, as documented)
+                                "hdrs":[["Content-Type","application/json; charset=utf-8"]]});
+                            let rd = render(&base);
+                            let (he, wl) = (gu(&rd.script, "headEnd"), rd.wire.len());
+                            let mut sc = base.clone();
+                            sc["id"] = json!(format!("xj-{}", i));
+                            if i % 2 == 0 { sc["pre"] = json!(100000); } else { sc["segs"] = json!(vec![1; wl]); }
+                            out.push(sc);
+                            i += 1;
+                            // cut at every offset of the body part (the document may be complete, the frame is not)
+                            for at in he..wl {
+                                if !thorough && (at + i) % 2 == 1 && at + 8 < wl {
+                                    continue;
+                                }
+                                let mut c = base.clone();
+                                c["id"] = json!(format!("xj-{}", i));
+                                c["fault"] = json!({"kind":"cut","at":at});
+                                c["pre"] = json!(100000);
+                                out.push(c);
+                                i += 1;
+                            }
+                        }
+                    }
+                }
+            }
+        }
         // C04: every status code x the status helpers (is_success / error_for_status / split)
         "x_status" => {
             for code in 100..1000usize {
@@ -187,6 +236,15 @@ pub fn generate(family: &str, seed: u64, tier: &str) -> Vec<String> {
                         "body":{"kind":kind,"chunks":[2, 3 + code % 3]},"steps":[["send"],[op]],
                         "reason": (["OK", "", "Not Found", "I'm a teapot"][code % 4])});
                     if code % 2 == 0 { sc["pre"] = json!(100000); } else { sc["segs"] = json!([7, 9, 1]); }
+                    if (300..400).contains(&code) && ![301usize, 302, 303, 307, 308].contains(&code) {
+                        // a 3xx that is never followed, with a Location and redirects left switched on: the response
+                        // (and its body) is the caller's
+                        let mut f = sc.clone();
+                        f["id"] = json!(format!("xst-{}-{}-follow", code, op));
+                        f["follow"] = json!(true);
+                        f["hdrs"] = json!([["Location", "/elsewhere"]]);
+                        out.push(f);
+                    }
                     out.push(sc);
                 }
             }
@@ -279,7 +337,12 @@ pub fn generate(family: &str, seed: u64, tier: &str) -> Vec<String> {
             for i in 0..n {
                 let kind = *r.pick(&["chunked", "chunked", "chunked", "length", "close"]);
                 let mut sc = json!({"id":format!("{}-{}", family, i),"seed":r.next() % 100000,"pk":*r.pick(&["bytes","bytes","crlf","rep"]),
-                    "status":*r.pick(&[200usize, 200, 206, 404, 410, 500, 503, 302])});
+                    "status":*r.pick(&[200usize, 200, 206, 404, 410, 500, 503, 302, 300, 305])});
+                if matches!(gu(&sc, "status"), 300 | 305) {
+                    // never followed, although it names a Location and redirects are left switched on
+                    sc["hdrs"] = json!([["Location", "http://elsewhere.test/x"]]);
+                    sc["follow"] = json!(true);
+                }
                 let plen;
                 match kind {
                     "chunked" => {
@@ -299,6 +362,9 @@ pub fn generate(family: &str, seed: u64, tier: &str) -> Vec<String> {
                             "lastext": r.chance(1,8)});
                         if !faulty && r.chance(1, 8) {
                             sc["body"]["lf"] = json!(*r.pick(&["size", "term", "all"]));
+                        }
+                        if r.chance(1, 5) {
+                            sc["body"]["extobs"] = json!(true);
                         }
                         if r.chance(1, 4) {
                             // a Content-Length next to chunked Transfer-Encoding must be ignored
